@@ -278,6 +278,9 @@ struct Exec<'a> {
     deleted_under_handle: bool,
     /// an oracle over the saved bytes has failed already (reported once)
     byte_level_failed: bool,
+    /// C16: the image the current session was opened on, while the session
+    /// has used read operations only
+    session_image: Option<Vec<u8>>,
 }
 
 fn fault_free() -> DiskCfg {
@@ -813,6 +816,22 @@ impl<'a> Exec<'a> {
                     self.viol("C02.edit-preserves", site, m.clone());
                 }
                 self.viol("C20.over-accepted", site, m);
+                // what did the accepted call store?  (unique keys, order and
+                // cell validity are C05's, whatever let the rows in)
+                if matches!(op, Op::Insert { .. } | Op::Update { .. }) {
+                    if let Some(snap) = self.working_snapshot() {
+                        let diffs = snapshot::invariants(&snap, Some(&self.model));
+                        for d in diffs {
+                            let c = match d.area {
+                                Area::Unique => "C05.unique",
+                                Area::Order => "C05.order",
+                                Area::CellValid => "C05.cell-valid",
+                                _ => continue,
+                            };
+                            self.viol(c, &format!("{:?}", d.area), d.msg);
+                        }
+                    }
+                }
                 self.done = true;
                 return;
             }
@@ -1269,6 +1288,33 @@ impl<'a> Exec<'a> {
         });
         let fault_now = self.disk.borrow().hard_fault_fired;
         let cache_probe = self.disk.borrow().cfg.write_back;
+        // C16: a session that only read must not have written, however it closed
+        if let Some(opened_on) = self.session_image.take() {
+            if self.cfg.oracles && !self.tainted && !self.faults_in_play() {
+                let (writes, same) = {
+                    let d = self.disk.borrow();
+                    (d.stats.events[EvKind::Write.idx()], d.view == opened_on)
+                };
+                self.stats.oracle_evals += 1;
+                self.stats.probe("read_only_working_session_checked");
+                if writes != 0 {
+                    self.viol(
+                        "C16.write-issued",
+                        "working-session",
+                        format!("a session of read operations only, closed by {:?}, issued {} writes to the medium", mode, writes),
+                    );
+                    self.done = true;
+                }
+                if !same {
+                    self.viol(
+                        "C16.bytes-changed",
+                        "working-session",
+                        format!("a session of read operations only, closed by {:?}, changed the bytes of the medium", mode),
+                    );
+                    self.done = true;
+                }
+            }
+        }
         let image_now = {
             let d = self.disk.borrow();
             if d.dead {
@@ -1334,6 +1380,7 @@ impl<'a> Exec<'a> {
     }
 
     fn reopen_working(&mut self, image: Vec<u8>) {
+        self.session_image = if self.cfg.oracles && !self.tainted { Some(image.clone()) } else { None };
         self.disk = self.new_disk(image);
         self.disk.borrow_mut().begin_op(self.cur_id);
         // the close and the reopen belong to one operation: ordinals go on
@@ -1419,9 +1466,48 @@ impl<'a> Exec<'a> {
         if self.pkg.is_none() {
             return;
         }
+        if rec.op.is_mutation() {
+            self.session_image = None;
+        }
         match &rec.op {
             Op::Restart { mode, edits } => {
                 self.restart(*mode, edits);
+                return;
+            }
+            Op::Join { left, right, lcol, rcol, outer } => {
+                self.disk.borrow_mut().hard_fault_fired = false;
+                let pkg = self.pkg.as_mut().unwrap();
+                let on = Expr::col(format!("{}.{}", left, lcol)).eq(Expr::col(format!("{}.{}", right, rcol)));
+                let q = if *outer {
+                    Select::table(left.as_str()).left_join(Select::table(right.as_str()), on)
+                } else {
+                    Select::table(left.as_str()).inner_join(Select::table(right.as_str()), on)
+                };
+                let r = guarded(|| match pkg.select_rows(q) {
+                    Ok(rows) => {
+                        let reported = rows.len();
+                        let n = rows.count();
+                        Some((reported, n))
+                    }
+                    Err(_) => None,
+                });
+                match r {
+                    Caught::Panic(loc, msg) => self.panic_violation("join", loc, msg, false),
+                    Caught::Val(Some((reported, n))) => {
+                        self.stats.probe("join_executed");
+                        if reported != n && self.cfg.oracles && !self.tainted {
+                            self.viol("C03.select-len", "join", format!("join: len() {} but {} rows yielded", reported, n));
+                            self.done = true;
+                        }
+                    }
+                    Caught::Val(None) => {
+                        if self.disk.borrow().hard_fault_fired {
+                            self.any_hard_fault = true;
+                            self.tainted = true;
+                            self.stats.tainted = true;
+                        }
+                    }
+                }
                 return;
             }
             Op::Observe => {
@@ -1591,6 +1677,7 @@ pub fn run(trace: &Trace, cfg: &ExecCfg) -> RunResult {
         carry_ord: [0; 4],
         deleted_under_handle: false,
         byte_level_failed: false,
+        session_image: None,
     };
     match &trace.init {
         Init::Create(pt) => {
